@@ -118,7 +118,10 @@ type Noise struct {
 	// VecAlias: vector types are spelled through named aliases (`%$v0 = type <4 x i32>`), up to six per
 	// module, created on first use while the text is rendered and defined at the top of the text.
 	VecAlias bool
-	Indent   string
+	// FnAlias: the callee type of call, invoke and callbr is spelled through a named function type
+	// (`%$fn0 = type void (i32)` ... `call %$fn0 @f(i32 1)`), up to six per module.
+	FnAlias bool
+	Indent  string
 }
 
 var noise Noise
